@@ -37,7 +37,7 @@ def _case(draw, tier):
     cfg = Cfg(profile="falsy" if "falsy_values" not in avoid else "clean", pool=(2, 6), noise=False)
     recs = draw_dataset(draw, cfg)
     n = len(recs)
-    inner = draw(st.sampled_from(["kids", "kids", "kids", "tags", "a"]))
+    inner = draw(st.sampled_from(["kids", "kids", "kids", "tags", "a", "s"]))
     if inner == "kids" and chance(draw, 1, 3):
         r = recs[draw(st.integers(0, n - 1))]
         if r["kids"]:
@@ -51,7 +51,8 @@ def _case(draw, tier):
                                                             {"dom": 1, "decl": draw(st.sampled_from(["let", "from"])), "type": "Ent"}],
             "inner": inner, "form": draw(st.sampled_from(["in_", "contains"])), "negate": draw(st.booleans()),
             "neg_spelling": draw(st.sampled_from(["not_", "~"])), "dom_kind": "list",
-            "outer_term": draw(st.sampled_from(["var", "var", "ref"])) if inner == "kids" else draw(st.sampled_from(["a", "b"]))}
+            "outer_term": draw(st.sampled_from(["var", "var", "ref"])) if inner == "kids" else
+            ("s" if inner == "s" else draw(st.sampled_from(["a", "b"])))}
 
 
 def strategy(tier):
@@ -76,7 +77,7 @@ def check(case) -> Outcome:
         return o if ot == "var" else getattr(o, ot)
 
     def member(v):
-        return any((v is x) if not isinstance(v, (int, str)) else (v == x) for x in flat)
+        return v in flat          # ordinary Python membership (identity or ==)
     members = [o for o in outer if member(oval(o))]
     non_members = [o for o in outer if not member(oval(o))]
     ids = [ident((x,)) for x in flat]
